@@ -11,11 +11,10 @@ it appends below the current node only and restores it); it is justified by G fo
 the others (headings, directives, targets ... re-root or register nodes elsewhere).
 """
 from pyvc.spec import assumed, contract, fields, spec, implies, forall, exists  # noqa: F401
-import contracts.assumed_docutils  # noqa: F401
+from contracts.assumed_docutils import GP_ENS, GP_MOD, GP_TEXT
 import contracts.lines  # noqa: F401  (token_line / add_line_and_source_path are proved there)
 
 M = "myst_parser.mdit_to_docutils.base"
-fields("docutils.nodes:Element", text="str", format="str")
 fields("markdown_it.tree:SyntaxTreeNode", children="list[SyntaxTreeNode]", content="str", markup="str", attrs="dict[str, str]")
 # ghost: the current node at the time render_children was last entered
 fields(f"{M}:DocutilsRenderer", g_rc_node="Element")
@@ -76,28 +75,17 @@ contract(
 assumed("DocutilsRenderer.copy_attributes", "copies class / id / other attributes (not modelled) and may append a warning node to `node`; "
         "existing nodes keep their parent", "myst_parser")
 
-# G': the induction hypothesis for the dynamic dispatch over the children
+# G' (contracts/assumed_docutils.py) for the dynamic dispatch over the children, plus the ghost that records where it ran
 contract(
     f"{M}:DocutilsRenderer.render_children",
     requires=[],
-    ensures=[
-        "self.current_node == old(self.current_node)",
-        "self.g_rc_node == old(self.current_node)",
-        "len(self.current_node.children) >= len(old(self.current_node.children))",
-        "self.current_node.children[: len(old(self.current_node.children))] == old(self.current_node.children)",
-        # nodes that existed before and are not the current node keep their children and parent (output goes BELOW the current node)
-        "forall_obj('Element', lambda e: implies(old(allocated(e)) and e != self.current_node, e.children == old(e.children)))",
-        "forall_obj('Element', lambda e: implies(old(allocated(e)), e.parent == old(e.parent) and e.kind == old(e.kind) and e.line == old(e.line)))",
-    ],
+    ensures=GP_ENS + ["self.g_rc_node == old(self.current_node)"],
     types={"token": "SyntaxTreeNode"},
     raises={"Exception": []},
-    modifies=["Element.children", "Element.parent", "Element.line", "Element.source", "Element.kind", "Element.text", "Element.format",
-              "Document.log", "self.g_rc_node", "fresh"],
+    modifies=GP_MOD + ["self.g_rc_node"],
     trusted=True,
 )
-assumed("DocutilsRenderer.render_children (G')", "rendering the children of a token appends below the current node only and puts the "
-        "current node back (induction hypothesis of the generic render contract; holds for the methods proved under it, assumed for the rest)",
-        "myst_parser")
+assumed("DocutilsRenderer.render_children (G')", GP_TEXT, "myst_parser")
 
 RMOD = ["Element.children", "Element.parent", "Element.line", "Element.source", "Element.kind", "Element.text", "Element.format",
         "Document.log", "self.g_rc_node", "self.current_node", "fresh"]
